@@ -16,10 +16,17 @@ type Cfg struct {
 	Kind string `json:"kind"`           // stump | pollard | map
 	Full bool   `json:"full,omitempty"` // map only
 	Rows int    `json:"rows,omitempty"` // map only: TotalRows set on the empty forest
+	// Direct (partial map only): a block whose deletions the forest already caches is applied with
+	// Modify alone, as a wallet that remembered its own leaves does; Verify(remember) is only
+	// called first when some deleted leaf is not cached yet.
+	Direct bool `json:"direct,omitempty"`
 }
 
 func (c Cfg) String() string {
 	if c.Kind == "map" {
+		if c.Direct {
+			return fmt.Sprintf("map(full=%v,rows=%d,direct)", c.Full, c.Rows)
+		}
 		return fmt.Sprintf("map(full=%v,rows=%d)", c.Full, c.Rows)
 	}
 	return c.Kind
@@ -135,7 +142,16 @@ func (in *Inst) Apply(adds []u.Leaf, delH []Hash, proof u.Proof) error {
 	case in.P != nil:
 		return in.P.Modify(adds, cloneHashes(delH), cloneProof(proof))
 	default:
-		if !in.M.Full && len(delH) > 0 {
+		needVerify := !in.M.Full && len(delH) > 0
+		if needVerify && in.Cfg.Direct {
+			needVerify = false
+			for _, h := range delH {
+				if _, ok := in.M.CachedLeaves.Get(h); !ok {
+					needVerify = true
+				}
+			}
+		}
+		if needVerify {
 			if err := in.M.Verify(cloneHashes(delH), cloneProof(proof), true); err != nil {
 				return fmt.Errorf("Verify(remember) before Modify: %w", err)
 			}
